@@ -358,37 +358,45 @@ def listMinD (q : List α) (d : α) : α :=
 
 def clampv (x lo hi : α) : α := if x < lo then lo else if hi < x then hi else x
 
+/-- the window part of `update`: on the first value both extrema are that value; evict the oldest when N values are held and
+rescan the extremum that left (the rescan yields the new value on an emptied window); push; widen an extremum -/
+def eftWindow (N : Nat) (q : List α) (high low v : α) : M (List α × α × α) := do
+  let hl : α × α := if q.isEmpty then (v, v) else (high, low)
+  let r ← if N ≤ q.length then (do
+      let (old, rest) ← popFront q
+      let high := if hl.1 ≤ old then listMaxD rest v else hl.1
+      let low := if old ≤ hl.2 then listMinD rest v else hl.2
+      pure (rest, high, low)) else pure (q, hl.1, hl.2)
+  let q := r.1 ++ [v]
+  let hl : α × α := if r.2.1 < v then (v, r.2.2) else if v < r.2.2 then (r.2.1, v) else (r.2.1, r.2.2)
+  pure (q, hl.1, hl.2)
+
+/-- the output part: normalise into [−1, 1], smooth with `ma`, clamp to ±0.99, Fisher recursion on the previous output -/
+def eftEmit (ma : View α) (m : ma.σ) (qOut : List α) (high low v : α) : M (ma.σ × List α) :=
+  if high == low then pure (m, qOut ++ [nat 0])
+  else do
+    let half : α := dec 5 10
+    let nv := nat 2 * ((v - low) / (high - low) - half)
+    let m ← ma.upd m nv
+    match ← ma.last m with
+    | none => pure (m, qOut)
+    | some smoothed =>
+      let smoothed := clampv smoothed (-(dec 99 100)) (dec 99 100)
+      if qOut.isEmpty then pure (m, qOut ++ [nat 0])
+      else do
+        let b ← back qOut
+        let fish := half * Transc.ln ((nat 1 + smoothed) / (nat 1 - smoothed)) + half * b
+        assertFinite fish
+        pure (m, qOut ++ [fish])
+
 def eftCore (N : Nat) (ma : View α) : Core α where
   σ := EftState α ma.σ
   init := { q := [], ma := ma.init, high := nat 0, low := nat 0, qOut := [] }
   step s v := do
-    let s := if s.q.isEmpty then { s with high := v, low := v } else s
-    let s := if 1 < s.qOut.length then { s with qOut := s.qOut.tail } else s
-    let s ← if N ≤ s.q.length then (do
-        let (old, rest) ← popFront s.q
-        let s := { s with q := rest }
-        let s := if s.high ≤ old then { s with high := listMaxD rest v } else s
-        let s := if old ≤ s.low then { s with low := listMinD rest v } else s
-        pure s) else pure s
-    let s := { s with q := s.q ++ [v] }
-    let s := if s.high < v then { s with high := v }
-             else if v < s.low then { s with low := v } else s
-    if s.high == s.low then pure { s with qOut := s.qOut ++ [nat 0] }
-    else do
-      let half : α := dec 5 10
-      let nv := nat 2 * ((v - s.low) / (s.high - s.low) - half)
-      let m ← ma.upd s.ma nv
-      let s := { s with ma := m }
-      match ← ma.last m with
-      | none => pure s
-      | some smoothed =>
-        let smoothed := clampv smoothed (-(dec 99 100)) (dec 99 100)
-        if s.qOut.isEmpty then pure { s with qOut := s.qOut ++ [nat 0] }
-        else do
-          let b ← back s.qOut
-          let fish := half * Transc.ln ((nat 1 + smoothed) / (nat 1 - smoothed)) + half * b
-          assertFinite fish
-          pure { s with qOut := s.qOut ++ [fish] }
+    let qOut := if 1 < s.qOut.length then s.qOut.tail else s.qOut
+    let w ← eftWindow N s.q s.high s.low v
+    let e ← eftEmit ma s.ma qOut w.2.1 w.2.2 v
+    pure { q := w.1, ma := e.1, high := w.2.1, low := w.2.2, qOut := e.2 }
   out s := pure s.qOut.getLast?
   size s := s.q.length + s.qOut.length + ma.size s.ma
 
